@@ -457,6 +457,7 @@ INVARIANTS = {
     'C13': ['C13_AppendOnly', 'C13_Numbering', 'C13_OnlyLastGrows'],
     'C18': ['C18_NoFdLeak'],
     'C08': ['C08_HandleViews'],
+    'C14': ['C14_ImportExact'],
 }
 INV_TO_PROP = {inv: prop for prop, invs in INVARIANTS.items() for inv in invs}
 
